@@ -18,7 +18,7 @@ PARTIAL = " PARTIAL: rounding-error bounds and the identification of the recursi
 
 TABLE = {
     "C01": ("Lean refinement proof of the H recursion + bitwise correspondence + mpmath oracle",
-            "Proved for every arithmetic (hence IEEE doubles) and all sizes: the five-step recursion stores at each wedge coordinate a value that depends on the coordinate and beta only (HKernel.runH_refines/pure/size_indep); over checked reals the recursion never divides by zero nor takes the root of a negative number for any size, and never reads the inf/nan table entries (Finite.runH_checked_eq_real, tables_read_defined); every flat index expression of _step_2.._step_5 denotes the cell/table entry the model uses, in range (FlatSteps.*); d/D assembly formula; eps = generated eps. The model is the code: tables, H (from poisoned workspaces), Euler phases, complex powers, fill_d, fill_D agree bit for bit on every generated case." + PARTIAL,
+            "Proved for every arithmetic (hence IEEE doubles) and all sizes: the five-step recursion stores at each wedge coordinate a value that depends on the coordinate and beta only (HKernel.runH_refines/pure/size_indep); over checked reals the recursion never divides by zero nor takes the root of a negative number for any size, and never reads the inf/nan table entries (Finite.runH_checked_eq_real, tables_read_defined); every flat index expression of _step_2.._step_5 denotes the cell/table entry the model uses, in range (FlatSteps.*); d/D assembly formula; eps = generated eps; over exact reals the model EQUALS the documented polynomial for ell <= 1 and every unit quaternion (both degenerate Euler branches included: DDef.D_ell1, d_ell1 — pins every sign/phase/index convention) and on both pole families for EVERY ell (DDef.D_zrot, D_pi, D_identity, H_poles). The model is the code: tables, H (from poisoned workspaces), Euler phases, complex powers, fill_d, fill_D agree bit for bit on every generated case." + PARTIAL,
             NOTE_COMMON + "quaternionic.ToEulerPhases modelled from its source; np.sqrt(complex) a parameter. Known finding F10 (subnormal near-pole band) is reported as KNOWN-FINDING.", "DESIGN.md §7 C01"),
     "C02": ("Lean theorems (exact zeros for every arithmetic, sYlm = D column in exact arithmetic, narrow-wedge safety) + bitwise correspondence + oracle to ell=1024",
             "Proved: entries below |s| are literal zeros for every scalar type; every H lookup of spin s lies in |m'|<=|s| (so an mp_max-limited calculator is safe for every ell_max); in exact arithmetic sYlm = (-1)^s sqrt((2l+1)/4pi) D^l_{m,-s} of the same model (Routes.sYlm_eq_D_column); H refinement as C01. fill_sYlm agrees bitwise incl. |s|>=3, limited calculators, ell_min>0." + PARTIAL,
@@ -36,7 +36,7 @@ TABLE = {
             "Sweep: every spelling of the product, truncators (bitwise = full product cut), scalar mult/div, broadcasting, against evaluation at rotors; obligations of Props/C06." + PARTIAL,
             NOTE_COMMON + "the Clebsch-Gordan series is not proved.", "DESIGN.md §7 C06"),
     "C07": ("Lean proof of the conjugation symmetry of the D assembly (exact arithmetic, all l) + full-block sweep of the group laws",
-            "Proved: D_{-m',-m} = (-1)^{m'+m} conj D_{m',m} for the model's assembly from the quarter wedge (Routes.D_conj_symm), H fold symmetric (C11.hindex_symm). Homomorphism, unitarity, D(-R), D(1) on every entry of every block to ell=128 are swept." + PARTIAL,
+            "Proved: D_{-m',-m} = (-1)^{m'+m} conj D_{m',m} for the model's assembly from the quarter wedge (Routes.D_conj_symm), H fold symmetric (C11.hindex_symm). D(1) = identity is proved for every ell (DDef.D_identity) as are the closed forms on both pole families. Homomorphism, unitarity, D(-R) on every entry of every block to ell=128 are swept." + PARTIAL,
             NOTE_COMMON + "homomorphism/unitarity need the identification with the documented polynomial.", "DESIGN.md §7 C07"),
     "C08": ("Lean theorem runH_size_indep (value at a coordinate independent of ell_max, mp_max, workspace; any arithmetic => bit for bit) + cross-configuration bitwise sweep",
             "Proved for every arithmetic: two calculators of different (ell_max, mp_max) and different workspaces hold the same value at every common wedge coordinate; index functions place it (C11). Assembly kernels are pure maps of H. Sweep compares differently sized calculators, wrappers, oversized workspaces and 3-j capacities bit for bit.",
